@@ -88,16 +88,19 @@ Theorem junk_starting_with_function_refuted_on_pinned :
     Statements cls_sheet g1 /\ JunkStmt cls_sheet KRuleset junk /\
     skeleton_pinned (g1 ++ junk ++ g2) <> skeleton_pinned g1 ++ [IStmt KRuleset junk] ++ skeleton_pinned g2.
 Proof. exact junk_starting_with_function_refuted. Qed.
+Print Assumptions junk_starting_with_function_refuted_on_pinned.
 Theorem junk_decl_starting_with_paren_refuted_on_pinned :
   exists d1 junk d2,
     Statements cls_decl d1 /\ JunkStmt cls_decl KDeclUnexpected junk /\
     decl_block_pinned (d1 ++ junk ++ d2) <> decl_block_pinned d1 ++ [IStmt KDeclUnexpected junk] ++ decl_block_pinned d2.
 Proof. exact junk_decl_starting_with_paren_refuted. Qed.
+Print Assumptions junk_decl_starting_with_paren_refuted_on_pinned.
 Theorem junk_decl_with_bang_refuted_on_pinned :
   exists d1 junk d2,
     Statements cls_decl d1 /\ JunkStmt cls_decl KDeclUnexpected junk /\
     decl_block_pinned (d1 ++ junk ++ d2) <> decl_block_pinned d1 ++ [IStmt KDeclUnexpected junk] ++ decl_block_pinned d2.
 Proof. exact junk_decl_with_bang_refuted. Qed.
+Print Assumptions junk_decl_with_bang_refuted_on_pinned.
 
 (* "An unknown but well-nested at-rule is not junk: it is preserved as an unknown rule with its
    tokens intact."  Full statement: for every at-rule  @kw body  whose body is balanced.
